@@ -117,7 +117,10 @@ EbErrorType decode_tile_row(DecModCtxt *dec_mod_ctxt, TilesInfo *tile_info,
             //Sleep(5); /* ToDo : Change */
         }
 
+        SVT_VERIF_EV("decsb", dec_mod_ctxt->dec_handle_ptr, "SbBeg", 0, sb_row, sb_col, sb_row_in_tile != 0, tile_wd_in_sb - 1,
+                     (tile_info->tile_col_start_mi[tile_col] << MI_SIZE_LOG2) >> dec_mod_ctxt->seq_header->sb_size_log2);
         decode_super_block(dec_mod_ctxt, mi_row, mi_col, sb_info);
+        SVT_VERIF_EV("decsb", dec_mod_ctxt->dec_handle_ptr, "SbEnd", 0, sb_row, sb_col);
         *sb_completed_in_row = (uint32_t)(sb_col + 1);
     }
 
